@@ -1220,3 +1220,164 @@ pub fn reply_then_drop_scenario(ch: &mut Chooser, _thorough: bool) -> Exec {
     }
     Exec { outcome: Digest::of64(&obs), violation, features: vec![] }
 }
+
+/// polls the inner future once, then leaves it alone until `round` has reached `until`
+struct LazyAfterFirstPoll<F> {
+    inner: std::pin::Pin<Box<F>>,
+    polled_once: bool,
+    round: Rc<RefCell<u32>>,
+    wait: u32,
+    until: u32,
+}
+
+impl<F: std::future::Future> std::future::Future for LazyAfterFirstPoll<F> {
+    type Output = F::Output;
+    fn poll(mut self: std::pin::Pin<&mut Self>, cx: &mut std::task::Context<'_>) -> std::task::Poll<F::Output> {
+        let now = *self.round.borrow();
+        if self.polled_once && now < self.until {
+            cx.waker().wake_by_ref();
+            return std::task::Poll::Pending;
+        }
+        if !self.polled_once {
+            self.polled_once = true;
+            self.until = now + self.wait;
+        }
+        match self.inner.as_mut().poll(cx) {
+            std::task::Poll::Ready(x) => std::task::Poll::Ready(x),
+            std::task::Poll::Pending => {
+                cx.waker().wake_by_ref();
+                std::task::Poll::Pending
+            }
+        }
+    }
+}
+
+/// C13, a connect future that is not polled between the SYN-ACK and whatever the acceptor
+/// does next: the acceptor accepts, optionally writes `n` bytes, and closes at once
+/// (shutdown or drop); the connector polls its connect once (the SYN leaves), is busy with
+/// something else for `w` rounds and only then awaits the connect. A listener was reachable
+/// and had room, so the connect must succeed; the stream then yields the acceptor's bytes and
+/// end-of-file, and afterwards only the listener is left.
+pub fn lazy_connect_scenario(ch: &mut Chooser, _thorough: bool) -> Exec {
+    let lat: u32 = 1 + ch.choose("one_way_latency_rounds_minus_1", 2) as u32;
+    let n: usize = *ch.of("bytes_written_by_the_acceptor", &[0usize, 3]);
+    let w: u32 = *ch.of("rounds_the_connector_is_busy", &[0u32, 2, 6, 12]);
+    let kc = KernelConfig::default().mtu(1500);
+    let mut net = Net::with_config(kc);
+    let (cip, sip): (IpAddr, IpAddr) = ("10.0.0.1".parse().unwrap(), "10.0.0.2".parse().unwrap());
+    let c = net.add_host(cip);
+    let s = net.add_host(sip);
+    let hosts = [c, s];
+    let guard = net.enter();
+    let round: Rc<RefCell<u32>> = Rc::new(RefCell::new(0));
+    #[derive(Default)]
+    struct Log {
+        connect: Option<String>,
+        read: Vec<u8>,
+        eof: bool,
+        err: Vec<String>,
+        done: [bool; 2],
+    }
+    let log: Rc<RefCell<Log>> = Rc::new(RefCell::new(Log::default()));
+    let mut exec = Executor::new();
+    {
+        let log = log.clone();
+        exec.spawn(1, async move {
+            let Ok(l) = TcpListener::bind(SocketAddr::new(sip, 80)).await else { return };
+            let Ok((mut st, _)) = l.accept().await else { return };
+            if n > 0 {
+                let data: Vec<u8> = (0..n).map(|i| i as u8 + 1).collect();
+                if let Err(e) = st.write_all(&data).await {
+                    log.borrow_mut().err.push(format!("acceptor: write: {}", errk(&e)));
+                }
+            }
+            drop(st);
+            log.borrow_mut().done[1] = true;
+            std::future::pending::<()>().await;
+            drop(l);
+        });
+    }
+    {
+        let (log, round) = (log.clone(), round.clone());
+        exec.spawn(0, async move {
+            let fut = LazyAfterFirstPoll { inner: Box::pin(TcpStream::connect(SocketAddr::new(sip, 80))), polled_once: false, round: round.clone(), wait: w, until: 0 };
+            let mut st = match fut.await {
+                Ok(s) => {
+                    log.borrow_mut().connect = Some("ok".into());
+                    s
+                }
+                Err(e) => {
+                    log.borrow_mut().connect = Some(errk(&e));
+                    log.borrow_mut().done[0] = true;
+                    return;
+                }
+            };
+            let mut buf = [0u8; 16];
+            loop {
+                match st.read(&mut buf).await {
+                    Ok(0) => {
+                        log.borrow_mut().eof = true;
+                        break;
+                    }
+                    Ok(k) => log.borrow_mut().read.extend_from_slice(&buf[..k]),
+                    Err(e) => {
+                        log.borrow_mut().err.push(format!("connector: read: {}", errk(&e)));
+                        break;
+                    }
+                }
+            }
+            drop(st);
+            log.borrow_mut().done[0] = true;
+        });
+    }
+    let mut wire: VecDeque<(u32, turmoil_net::Packet)> = VecDeque::new();
+    let horizon = 200u32;
+    let mut reclaimed_at: Option<u32> = None;
+    for r in 0..horizon {
+        *round.borrow_mut() = r;
+        while wire.front().map(|(t, _)| *t <= r).unwrap_or(false) {
+            let (_, p) = wire.pop_front().unwrap();
+            guard.deliver(p);
+        }
+        exec.run_until_stalled(4000, |tag| turmoil_net::set_current(hosts[tag as usize]));
+        let mut out = vec![];
+        guard.egress_all(&mut out);
+        for p in out {
+            wire.push_back((r + lat, p));
+        }
+        let l = log.borrow();
+        if l.done[0] && l.done[1] {
+            let (cc, sc) = (turmoil_net::verif_counts(cip), turmoil_net::verif_counts(sip));
+            if cc.0 == 0 && sc.0 == 1 {
+                reclaimed_at = Some(r);
+                break;
+            }
+        }
+    }
+    let l = log.borrow();
+    let want: Vec<u8> = (0..n).map(|i| i as u8 + 1).collect();
+    let what = format!("the acceptor accepts, writes {n} bytes and drops the stream at once; the connector polls its connect once and awaits it {w} rounds later (latency {lat})");
+    let mut violation: Option<Violation> = None;
+    if l.connect.as_deref() != Some("ok") {
+        violation = Some(Violation::new("connect", format!("{what}: a listener was reachable with backlog room and accepted the connection, connect returned {:?}", l.connect)));
+    } else if !l.err.is_empty() {
+        violation = Some(Violation::new("aborted", format!("{what}: {:?}", l.err)));
+    } else if l.read != want || !l.eof {
+        violation = Some(Violation::new("stall", format!("{what}: after {horizon} rounds the connector has {:?} (want {:?}), EOF seen: {}", l.read, want, l.eof)));
+    } else if reclaimed_at.is_none() {
+        violation = Some(Violation::new(
+            "not-reclaimed",
+            format!("{what}: both sides are done, yet {horizon} rounds into the run the tables hold connector {:?}, acceptor {:?} (sockets, bindings, connections)", turmoil_net::verif_counts(cip), turmoil_net::verif_counts(sip)),
+        ));
+    }
+    drop(l);
+    drop(exec);
+    drop(guard);
+    let obs = format!("lat={lat} n={n} w={w} reclaimed_at={reclaimed_at:?}");
+    if let Some(v) = violation.as_mut() {
+        v.sig = format!("lazy-connect|{}", v.clause);
+        v.scenario = format!("c13-lazy-connect {obs}");
+        v.actions = vec![obs.clone()];
+    }
+    Exec { outcome: Digest::of64(&obs), violation, features: vec![] }
+}
